@@ -18,28 +18,6 @@ PID = 'C34'
 SHORT = 'nodes'
 
 ENV = '''
-#[derive(Debug, Clone, Copy, PartialEq, Eq, Structural)]
-pub struct StatusCode { pub bits: u32 }
-impl StatusCode {
-    pub const Good: StatusCode = StatusCode { bits: 0 };
-    pub const BadUserAccessDenied: StatusCode = StatusCode { bits: 0x801F_0000 };
-    pub const BadNodeIdRejected: StatusCode = StatusCode { bits: 0x805D_0000 };
-    pub const BadNodeClassInvalid: StatusCode = StatusCode { bits: 0x805F_0000 };
-    pub const BadNodeIdExists: StatusCode = StatusCode { bits: 0x805E_0000 };
-    pub const BadBrowseNameInvalid: StatusCode = StatusCode { bits: 0x8060_0000 };
-    pub const BadBrowseNameDuplicated: StatusCode = StatusCode { bits: 0x8061_0000 };
-    pub const BadTypeDefinitionInvalid: StatusCode = StatusCode { bits: 0x8063_0000 };
-    pub const BadParentNodeIdInvalid: StatusCode = StatusCode { bits: 0x805B_0000 };
-    pub const BadNodeAttributesInvalid: StatusCode = StatusCode { bits: 0x8062_0000 };
-    pub const BadReferenceTypeIdInvalid: StatusCode = StatusCode { bits: 0x804C_0000 };
-    pub const BadServerUriInvalid: StatusCode = StatusCode { bits: 0x804F_0000 };
-    pub const BadReferenceLocalOnly: StatusCode = StatusCode { bits: 0x8068_0000 };
-    pub const BadSourceNodeIdInvalid: StatusCode = StatusCode { bits: 0x8064_0000 };
-    pub const BadTargetNodeIdInvalid: StatusCode = StatusCode { bits: 0x8065_0000 };
-    pub const BadReferenceNotAllowed: StatusCode = StatusCode { bits: 0x805C_0000 };
-    pub const BadDuplicateReferenceNotAllowed: StatusCode = StatusCode { bits: 0x8066_0000 };
-    pub const BadNodeIdUnknown: StatusCode = StatusCode { bits: 0x8034_0000 };
-}
 // a node id: namespace index and identifier (the identifier's four forms are not distinguished here)
 #[derive(Debug, PartialEq, Eq, Structural)]
 pub struct NodeId { pub namespace: u16, pub identifier: u64 }
@@ -71,6 +49,7 @@ impl NodeId {
 pub struct UAString { x: u64 }
 impl UAString {
     #[verifier::external_body] pub fn is_null(&self) -> (r: bool) { unimplemented!() }
+    #[verifier::external_body] pub fn is_empty(&self) -> (r: bool) { unimplemented!() }
     #[verifier::external_body] pub fn as_ref(&self) -> (r: &str) { unimplemented!() }
 }
 pub struct QualifiedName { pub namespace_index: u16, pub name: UAString }
@@ -266,6 +245,7 @@ def build(manifest):
     a = Asm()
     a.add('use vstd::prelude::*;\nverus! {\nglobal size_of usize == 8;\n', 'prelude', 'env')
     a.add(norm_vis(types), 'types', 'env')
+    a.add(status_code_struct(manifest), 'status codes', 'env')      # every status code of the real file (D14)
     a.add(ENV, 'env', 'env')
     a.add('impl NodeManagementService {')
     for n in ['add_node', 'add_reference', 'delete_node', 'delete_reference']:
